@@ -325,6 +325,19 @@ def _run_case(case: dict) -> dict:
                     planted.add(id(a_.value))
                     planted_objs.append(a_.value)
                     inc("const_valued_node_outputs")
+    ur = Streams(case["run_seed"]).rng("unnamed")
+    if ur.random() < 0.3:
+        # names taken away again after the graph assigned them (legal: node names and the names of unused values are
+        # optional) - a faithful copy is unnamed in the same places
+        for top in [model.graph] + [f.graph for f in model.functions.values()]:
+            for n in top.all_nodes():
+                if ur.random() < 0.3:
+                    n.name = None
+                    inc("unnamed_nodes")
+                for o in n.outputs:
+                    if not o.uses() and not o.is_graph_output() and ur.random() < 0.5:
+                        o.name = None
+                        inc("unnamed_unused_outputs")
     if model.functions and Streams(case["run_seed"]).rng("function-default-graphs").random() < 0.4:
         # a function attribute parameter whose DEFAULT value is a graph (legal: attribute_proto of the FunctionProto)
         for fi, f in enumerate(model.functions.values()):
